@@ -50,7 +50,7 @@ pub fn run_all_but_ts(user: &Project, entry: &str, lim: &Limits) -> Outcome {
   let (t, st) = refint::run(&heap, &checked.checked, entry_ref, lim);
   o.escaped_literals = st.saw_escaped_literal();
   o.ambiguous_object_eq = st.ambiguous_object_eq > 0;
-  o.ref_trace = Some(t);
+  o.ref_trace = Some(normalise(t));
   let compiled = match catch(AssertUnwindSafe(|| front::compile_project(&project, entry))) {
     Ok(Ok(x)) => x,
     Ok(Err(e)) => {
@@ -67,7 +67,7 @@ pub fn run_all_but_ts(user: &Project, entry: &str, lim: &Limits) -> Outcome {
     Ok(()) => {
       let (t, st) = wasmi::run(&compiled.wasm, &compiled.main_fn, lim);
       o.wasm_instrs = st.instrs;
-      o.wasm_trace = Some(t);
+      o.wasm_trace = Some(normalise(t));
     }
   }
   match tsrun::erase(&compiled.ts) {
@@ -85,7 +85,7 @@ pub fn run_ts_batch(outs: &mut [&mut Outcome], lim: &Limits, timeout_ms: u64) {
   }
   let traces = tsrun::run_batch(&progs, lim, timeout_ms);
   for (k, i) in idx.iter().enumerate() {
-    outs[*i].ts_trace = traces.get(k).cloned();
+    outs[*i].ts_trace = traces.get(k).cloned().map(normalise);
   }
 }
 
@@ -93,7 +93,7 @@ pub fn run_full(user: &Project, entry: &str, lim: &Limits, with_ts: bool) -> Out
   let mut o = run_all_but_ts(user, entry, lim);
   if with_ts {
     if let Some(js) = &o.js {
-      o.ts_trace = Some(tsrun::run_one(js, lim, 4000));
+      o.ts_trace = Some(normalise(tsrun::run_one(js, lim, 4000)));
     }
   }
   o
@@ -101,6 +101,15 @@ pub fn run_full(user: &Project, entry: &str, lim: &Limits, with_ts: bool) -> Out
 
 pub fn same(a: &Trace, b: &Trace) -> bool {
   a.lines == b.lines && a.ending == b.ending
+}
+
+/// one printed string may contain newlines: the observable is the text, so every executor's
+/// lines are re-split the way a terminal would show them
+fn normalise(mut t: Trace) -> Trace {
+  if t.lines.iter().any(|l| l.contains('\n')) {
+    t.lines = t.lines.iter().flat_map(|l| l.split('\n').map(|s| s.to_string()).collect::<Vec<_>>()).collect();
+  }
+  t
 }
 
 fn ending_class(e: &Ending) -> String {
